@@ -211,6 +211,42 @@ func findAppendClobber(fn *ssa.Function) []ssa.Instruction {
 		}
 		if h, _ := reach(fn, in, isTailRead, isBaseStore, nil); h != nil {
 			out = append(out, in)
+			return
+		}
+		// a tail that was sliced off *before* this append and is used after it aliases the same backing array
+		// (`rest := b[at:]; ... append(append(b[:at], x), rest...)`); the operands of this append itself are
+		// exempt (append(b[:i], b[i+1:]...) is the delete idiom: memmove handles the overlap)
+		var tails []*ssa.Slice
+		allInstrs(fn, func(x ssa.Instruction) {
+			s2, ok := x.(*ssa.Slice)
+			if !ok || s2.Low == nil || ssa.Instruction(s2) == ssa.Instruction(s) || sliceBaseKey(s2.X) != base {
+				return
+			}
+			if !reachable(fn, x, in) {
+				return
+			}
+			// no store to the base between the slicing and the append
+			if y := between(fn, x, in, isBaseStore); y != nil {
+				return
+			}
+			tails = append(tails, s2)
+		})
+		for _, t := range tails {
+			usesTail := func(x ssa.Instruction) bool {
+				if x == in {
+					return false
+				}
+				for _, op := range x.Operands(nil) {
+					if op != nil && *op == ssa.Value(t) {
+						return true
+					}
+				}
+				return false
+			}
+			if h, _ := reach(fn, in, usesTail, nil, nil); h != nil {
+				out = append(out, in)
+				return
+			}
 		}
 	})
 	return out
